@@ -7,6 +7,8 @@
 #include <memory>
 #include <functional>
 #include <algorithm>
+#include <random>
+#include <map>
 #include <kll_sketch.hpp>
 #include <req_sketch.hpp>
 #include <quantiles_sketch.hpp>
@@ -24,7 +26,8 @@ static uint32_t coin_from_string(void* c) {
   return b;
 }
 
-struct Result { std::vector<long long> le, lt; long long n; bool exact; };
+struct Result { std::vector<long long> le, lt; long long n; bool exact; long draws = -1; };
+static uint64_t g_rand_seed = 1;
 
 template<class Sk> static Result measure(const Sk& s, const std::vector<double>& probes) {
   Result r; r.n = (long long)s.get_n(); r.exact = true;
@@ -40,6 +43,11 @@ template<class Sk> static Result measure(const Sk& s, const std::vector<double>&
 // a scenario: build(n) runs the operations on fresh sketches and returns the measurements; stream(n) is what was offered
 struct Scenario {
   std::string name, fam; int nmin, nmax;
+  // equally likely outcome sequences of randomness that is NOT the coin (classic down-sampling offsets), dictated by seeding
+  // random_utils::rand; empty: none.  g_rand_seed is installed by the scenario right before the operation that draws.
+  std::vector<uint64_t> rand_seeds;
+  int rand_draws = 0;          // engine draws the modelled source makes per run (checked against the engine state)
+  bool skip_if_over = false;   // shape batches: a scenario that needs more than fmax flips is skipped, not fatal
   std::function<Result(int, const std::vector<double>&)> run;
   std::function<std::vector<double>(int)> stream;
 };
@@ -78,34 +86,160 @@ template<class Sk, class Mk> static Scenario merged(const char* name, const char
   return sc;
 }
 
-static void execute(const Scenario& sc, int fmax, long seg) {
+static bool execute(const Scenario& sc, int fmax, long seg) {
   random_utils::random_bit.source = &coin_from_string;
   random_utils::random_bit.context = &g_cs;
+  if (!sc.rand_seeds.empty()) g_rand_seed = sc.rand_seeds[0];
   // choose the longest stream in [nmin, nmax] whose all-zero run draws at most fmax coins
-  int n = -1, f = 0;
+  int n = -1, f = 0; long draws0 = -1;
   for (int cand = sc.nmax; cand >= sc.nmin; cand--) {
     std::vector<double> st = sc.stream(cand);
     g_cs.bits = 0; g_cs.pos = 0; random_utils::random_bit.calls = 0;
-    sc.run(cand, st);
-    if ((int)random_utils::random_bit.calls <= fmax) { n = cand; f = (int)random_utils::random_bit.calls; break; }
+    Result r0 = sc.run(cand, st);
+    if ((int)random_utils::random_bit.calls <= fmax) { n = cand; f = (int)random_utils::random_bit.calls; draws0 = r0.draws; break; }
   }
-  if (n < 0) { fprintf(stderr, "coin_rec: scenario %s does not fit %d flips\n", sc.name.c_str(), fmax); exit(5); }
+  if (n < 0) {
+    fprintf(stderr, "coin_rec: scenario %s does not fit %d flips%s\n", sc.name.c_str(), fmax, sc.skip_if_over ? " (skipped)" : "");
+    if (sc.skip_if_over) return false;
+    exit(5);
+  }
+  if (!sc.rand_seeds.empty() && draws0 != sc.rand_draws) {
+    // the library does not draw the non-coin randomness the way this enumeration models it: no exhaustive verdict is possible here
+    // (the seeded statistical trials of quant_err_rec judge unbiasedness of this path independently of the mechanism)
+    fprintf(stderr, "coin_rec: scenario %s: %ld engine draws instead of %d - exhaustive offset enumeration not applicable (skipped)\n", sc.name.c_str(), draws0, sc.rand_draws);
+    return false;
+  }
   std::vector<double> st = sc.stream(n);
   std::vector<double> probes = st; std::sort(probes.begin(), probes.end()); probes.erase(std::unique(probes.begin(), probes.end()), probes.end());
-  const size_t maxp = f > 12 ? 24 : 64;
+  const size_t choices = sc.rand_seeds.empty() ? 1 : sc.rand_seeds.size();
+  const size_t maxp = (f > 12 || choices > 16) ? 24 : 64;
   if (probes.size() > maxp) {   // long streams / big trees: an evenly spaced subset of the values (both extremes included) keeps the trace small
     std::vector<double> sub; const size_t step = (probes.size() + maxp - 1) / maxp;
     for (size_t i = 0; i < probes.size(); i += step) sub.push_back(probes[i]);
     if (sub.back() != probes.back()) sub.push_back(probes.back());
     probes = sub;
   }
-  Ev("Begin").i("seg", seg).str("scen", sc.name).str("fam", sc.fam).i("f", f).i("n", n).dl("stream", st).dl("probes", probes).emit();
-  for (uint32_t c = 0; c < (1u << f); c++) {
-    g_cs.bits = c; g_cs.pos = 0; random_utils::random_bit.calls = 0;
-    Result r = sc.run(n, probes);
-    Ev("Leaf").i("coins", c).i("flips", (long long)random_utils::random_bit.calls).i("n", r.n).b("exact", r.exact).il("le", r.le).il("lt", r.lt).emit();
+  Ev("Begin").i("seg", seg).str("scen", sc.name).str("fam", sc.fam).i("f", f).i("choices", (long long)choices).i("n", n).dl("stream", st).dl("probes", probes).emit();
+  long long leaf = 0;
+  for (size_t ch = 0; ch < choices; ch++) {
+    if (!sc.rand_seeds.empty()) g_rand_seed = sc.rand_seeds[ch];
+    for (uint32_t c = 0; c < (1u << f); c++) {
+      g_cs.bits = c; g_cs.pos = 0; random_utils::random_bit.calls = 0;
+      Result r = sc.run(n, probes);
+      Ev("Leaf").i("leaf", leaf++).i("coins", c).i("choice", (long long)ch).i("flips", (long long)random_utils::random_bit.calls).i("n", r.n).b("exact", r.exact)
+        .b("drawsok", sc.rand_seeds.empty() || r.draws == sc.rand_draws).il("le", r.le).il("lt", r.lt).emit();
+    }
   }
-  Ev("Verdict").i("leaves", 1LL << f).emit();
+  Ev("Verdict").i("leaves", leaf).emit();
+  return true;
+}
+
+// ---------------------------------------------------------------------------------------------------------------
+// REQ merge SHAPES: all merge trees over 3 (4) small sketches whose level-0 compactors are in every combination of
+// {never compacted (state 0), even non-zero state, odd state}; the stream lengths realising a state are found by brute
+// force (the state is the first field of the serialized level-0 compactor; it does not depend on coin outcomes)
+// ---------------------------------------------------------------------------------------------------------------
+static uint64_t req_level0_state(int n, bool hra) {
+  g_cs.bits = 0; g_cs.pos = 0;
+  req_sketch<float> s(4, hra);
+  for (int i = 0; i < n; i++) s.update((float)((i * 37) % 1009));
+  if (s.get_n() <= 4) return 0;                        // raw items layout: never compacted
+  auto b = s.serialize();
+  const size_t off = s.is_estimation_mode() ? 8 + 8 + 4 + 4 : 8;
+  uint64_t st; memcpy(&st, b.data() + off, 8); return st;
+}
+// lengths[c]: stream length whose level-0 state is of class c (0: zero, 1: even non-zero, 2: odd)
+static std::vector<int> req_lengths(bool hra, int variant) {
+  static std::map<int, std::vector<std::vector<int>>> cache;
+  if (!cache.count(hra)) {
+    std::vector<std::vector<int>> by(3);
+    for (int n = 6; n <= 400; n++) { uint64_t st = req_level0_state(n, hra); by[st == 0 ? 0 : (st % 2 == 0 ? 1 : 2)].push_back(n); }
+    cache[hra] = by;
+  }
+  std::vector<int> len;
+  for (auto& l : cache[hra]) { if (l.empty()) { fprintf(stderr, "coin_rec: no stream length for a state class\n"); exit(5); } len.push_back(l[std::min<size_t>((size_t)variant * 5, l.size() - 1)]); }
+  return len;
+}
+// shape over sketches S0..S(m-1) as a sequence of merges (dst, src); S0 is the final sketch and is then updated further
+typedef std::vector<std::pair<int, int>> Shape;
+static Scenario req_shape(const std::string& name, bool hra, const std::vector<int>& lens, const Shape& shape, int post, uint64_t salt, bool rv) {
+  Scenario sc; sc.name = name; sc.fam = "req"; sc.skip_if_over = true;
+  int total = post; for (int x : lens) total += x;
+  sc.nmin = sc.nmax = total;
+  sc.stream = [=](int n) { return values(n, salt, 0); };
+  sc.run = [=](int n, const std::vector<double>& probes) {
+    typedef req_sketch<float> R;
+    std::vector<double> v = values(n, salt, 0);
+    std::vector<std::unique_ptr<R>> sk; size_t pos = 0;
+    for (int x : lens) { sk.emplace_back(new R(4, hra)); for (int i = 0; i < x; i++) sk.back()->update((float)v[pos++]); }
+    for (auto& m : shape) { if (rv) sk[m.first]->merge(std::move(*sk[m.second])); else sk[m.first]->merge(*sk[m.second]); }
+    while (pos < v.size()) sk[0]->update((float)v[pos++]);
+    return measure(*sk[0], probes);
+  };
+  return sc;
+}
+static void req_shapes(std::vector<std::vector<Scenario>>& parts, int m, uint64_t seed, size_t per_part) {
+  static const char* CN = "ZEO";    // zero / even / odd
+  std::vector<Shape> shapes; std::vector<std::string> sn;
+  if (m == 3) {
+    shapes.push_back({{0, 1}, {0, 2}}); sn.push_back("seq");          // (S0 <- S1) <- S2
+    shapes.push_back({{1, 2}, {0, 1}}); sn.push_back("nest");         // S0 <- (S1 <- S2)
+  } else {
+    shapes.push_back({{0, 1}, {0, 2}, {0, 3}}); sn.push_back("seq");
+    shapes.push_back({{2, 3}, {1, 2}, {0, 1}}); sn.push_back("nest");
+    shapes.push_back({{0, 1}, {2, 3}, {0, 2}}); sn.push_back("bal");
+    shapes.push_back({{1, 2}, {0, 1}, {0, 3}}); sn.push_back("mix");
+  }
+  int patterns = 1; for (int i = 0; i < m; i++) patterns *= 3;
+  std::vector<Scenario> cur; int idx = 0;
+  for (int p = 0; p < patterns; p++) for (size_t sh = 0; sh < shapes.size(); sh++, idx++) {
+    const bool hra = (p + (int)sh) % 2 == 0;
+    std::vector<int> L = req_lengths(hra, (p + (int)sh) % 2);
+    std::vector<int> lens; std::string pat; int q = p;
+    for (int i = 0; i < m; i++) { lens.push_back(L[q % 3]); pat += CN[q % 3]; q /= 3; }
+    cur.push_back(req_shape("req-shape" + std::to_string(m) + "-" + sn[sh] + "-" + pat + (hra ? "-hra" : "-lra"), hra, lens, shapes[sh], 30, seed * 131 + (uint64_t)idx, idx % 3 == 0));
+    if (cur.size() == per_part) { parts.push_back(cur); cur.clear(); }
+  }
+  if (!cur.empty()) parts.push_back(cur);
+}
+
+// ---------------------------------------------------------------------------------------------------------------
+// classic down-sampling merge: the stride offsets come from random_utils::rand through
+// std::uniform_int_distribution<uint16_t>(0, stride - 1), one draw per populated source level.  All offset sequences are
+// enumerated by seeding the engine with seeds found (by simulation of the same standard engine and distribution) to
+// produce each sequence; the run reports how many engine draws the merge really made.
+// ---------------------------------------------------------------------------------------------------------------
+static std::vector<uint64_t> offset_seeds(int stride, int draws) {
+  size_t want = 1; for (int i = 0; i < draws; i++) want *= (size_t)stride;
+  std::map<size_t, uint64_t> found;
+  for (uint64_t sd = 1; found.size() < want && sd < 1000000; sd++) {
+    std::mt19937_64 e(sd); size_t code = 0;
+    for (int i = 0; i < draws; i++) { std::uniform_int_distribution<uint16_t> d(0, (uint16_t)(stride - 1)); code = code * (size_t)stride + d(e); }
+    if (!found.count(code)) found[code] = sd;
+  }
+  std::vector<uint64_t> out; for (auto& kv : found) out.push_back(kv.second);
+  return out;
+}
+static Scenario downsample(const std::string& name, int ratio, bool small_absorbs, uint64_t salt) {
+  typedef quantiles_sketch<float> Q;
+  const int kt = 2, ks = kt * ratio, nt = 2 * kt + 1, ns = 3 * 2 * ks + 3, draws = 2;   // source bit pattern 3: two populated levels
+  Scenario sc; sc.name = name; sc.fam = "classic"; sc.nmin = sc.nmax = nt + ns;
+  sc.rand_seeds = offset_seeds(ratio, draws); sc.rand_draws = draws;
+  sc.stream = [=](int n) { return values(n, salt, 0); };
+  sc.run = [=](int n, const std::vector<double>& probes) {
+    std::vector<double> v = values(n, salt, 0);
+    Q small((uint16_t)kt), large((uint16_t)ks);
+    for (int i = 0; i < nt; i++) small.update((float)v[i]);
+    for (int i = nt; i < n; i++) large.update((float)v[i]);
+    random_utils::override_seed(g_rand_seed);
+    std::mt19937_64 before = random_utils::rand;
+    if (small_absorbs) small.merge(large); else large.merge(small);
+    long d = 0; while (d <= 64 && !(before == random_utils::rand)) { before(); d++; }
+    Result r = measure(small_absorbs ? small : large, probes);
+    r.draws = d > 64 ? -1 : d;
+    return r;
+  };
+  return sc;
 }
 
 int main(int argc, char** argv) {
@@ -132,8 +266,18 @@ int main(int argc, char** argv) {
   all.push_back(merged<Q>("classic-merge", "classic", 16, 28, seed * 11 + 11, false, [](int) { return Q(2); }));
   all.push_back(merged<Q>("classic-merge-rvalue", "classic", 16, 28, seed * 11 + 12, true, [](int) { return Q(2); }));
   all.push_back(merged<Q>("classic-exact-absorbs-estimating", "classic", 16, 28, seed * 11 + 15, false, [](int) { return Q(2); }, 10, 50));
-  if (vt::argl(argc, argv, "--count", 0)) { printf("%zu\n", all.size()); return 0; }
-  for (size_t i = 0; i < all.size(); i++) if (part < 0 || (size_t)part == i) execute(all[i], fmax, (long)i);
+  // parts: one file per part.  0..14: the single scenarios; then the REQ merge-shape batches (3 sketches; 4 sketches with --shapes4 1)
+  std::vector<std::vector<Scenario>> parts;
+  for (auto& sc : all) parts.push_back(std::vector<Scenario>(1, sc));
+  // exhaustive classic down-sampling merges (k ratio 2, 4, 8; both directions) ride along with the classic parts 10..14
+  { int j = 0; for (int ratio : {2, 4, 8}) for (int dir = 0; dir < 2; dir++, j++)
+      parts[10 + j % 5].push_back(downsample("classic-downsample-x" + std::to_string(ratio) + (dir ? "-small-absorbs-large" : "-large-absorbs-small"), ratio, dir == 1, seed * 11 + 20 + (uint64_t)j)); }
+  req_shapes(parts, 3, seed, 9);
+  if (vt::argl(argc, argv, "--shapes4", 0)) req_shapes(parts, 4, seed + 1, 27);
+  if (vt::argl(argc, argv, "--count", 0)) { printf("%zu\n", parts.size()); return 0; }
+  long seg = 0, done = 0;
+  for (size_t i = 0; i < parts.size(); i++) if (part < 0 || (size_t)part == i) for (auto& sc : parts[i]) { if (execute(sc, fmax, seg++)) done++; }
+  if (done == 0) { fprintf(stderr, "coin_rec: part %ld has no executable scenario\n", part); return 5; }
   vt::close_out();
   fprintf(stderr, "coin_rec: %ld events\n", vt::g_events);
   return 0;
